@@ -9,6 +9,8 @@ from .values import (Top, GE2, Ref, ClassVal, FuncVal, BoundMeth, Builtin, Modul
                      SuperVal, AbsSeq, LenOf, SymLen, HObj, Exc, State, vkey)
 
 
+from . import lazyiter as _lazyiter
+
 _UNS = []
 
 
@@ -254,6 +256,10 @@ def call_external(self, st, name, args, kwargs, node):
             return [(st, "val", r)]
     if name in ("time.time",):
         return [(st, "val", Top("time", True))]
+    if name.startswith(("operator.", "functools.", "itertools.")):
+        r = _lazyiter.call_ext(self, st, name, args, kwargs, node)
+        if r is not KeyError:
+            return r
     if name in ("itertools.chain",):
         return [(st, "val", chain(self, st, args, node))]
     if name in ("copy.copy", "copy.deepcopy"):
@@ -730,19 +736,25 @@ def call_builtin(self, st, name, args, kwargs, node):
         v = args[0]
         if isinstance(v, Top):
             return [(st, "val", Top("%s(%s)" % (name, v.tag), v.input))]
+        if name == "iter":
+            # an iterator OBJECT: whoever iterates it consumes it (two loops over one iterator share its position)
+            return [(st, "val", _lazyiter.make_iter(self, st, v, node))]
         kind, seq = self.iter_values(st, v, node)
         if kind == "abs":
-            if name in ("iter", "list", "tuple", "sorted"):
+            if name in ("list", "tuple", "sorted"):
                 return [(st, "val", seq)]
             if name == "reversed":
                 return [(st, "val", AbsSeq("reversed(%s)" % seq.name, seq.factory, seq.nonempty))]
             return [(st, "val", Top("%s(%s)" % (name, seq.name), False))]
         if name == "reversed":
             return [(st, "val", tuple(reversed(seq)))]
-        if name in ("iter", "tuple"):
+        if name == "tuple":
             return [(st, "val", tuple(seq))]
         if name == "sorted":
-            return [(st, "val", st.alloc(HObj("list", kind="list", items=list(seq))))]
+            r = st.alloc(HObj("list", kind="list", items=list(seq)))
+            if len(seq) > 1:
+                list_method(self, st, r, st.wobj(r), "sort", [], {k_: v_ for k_, v_ in kwargs.items() if k_ in ("key", "reverse")}, node)
+            return [(st, "val", r)]
         if name in ("set", "frozenset"):
             items = []
             for x in seq:
@@ -882,6 +894,14 @@ def call_builtin(self, st, name, args, kwargs, node):
             first = self.cur_func.node.args.args[0].arg
             return [(st, "val", SuperVal(self.cur_func.cls, fr[first]))]
         raise U("super() form at %s" % self.loc(node))
+    if name in ("map", "filter"):
+        r = _lazyiter.builtin_map_filter(self, st, name, args, kwargs, node)
+        if r is not KeyError:
+            return r
+    if name == "next":
+        r = _lazyiter.builtin_next(self, st, args, kwargs, node)
+        if r is not KeyError:
+            return r
     if name in ("enumerate", "zip", "filter", "map", "range", "next", "open", "issubclass", "object"):
         if name == "enumerate" and args:
             v = args[0]
